@@ -73,15 +73,16 @@ def main():
         demo_ok_clean, _ = run_demo(meta)
         os.remove(os.path.join(WT, 'spindalis', 'tests', 'demo_seed.rs'))
         confirmed = (n == 244 and bad == 0 and not demo_ok_mut and demo_ok_clean)
-        meta.update({'confirmed_by_lead': confirmed, 'suite_passed_with_mutation': n, 'demo_fails_with_mutation': not demo_ok_mut,
+        meta.update({'confirmed_by_lead': confirmed, 'verified_at_repo_commit': subprocess.run('git -C /repo rev-parse --short HEAD', shell=True, stdout=subprocess.PIPE, text=True).stdout.strip(), 'suite_passed_with_mutation': n, 'demo_fails_with_mutation': not demo_ok_mut,
                      'demo_passes_without_mutation': demo_ok_clean, 'check_cmd': 'VERIF_REPO=<worktree with patch> ./check %s --tier %s' % (pid, tier),
                      'caught_by_check': caught, 'check_summary': lines[-1] if lines else '', 'check_replay': replay,
                      'check_wall_s': round(time.time() - t0, 1)})
         if confirmed:
             dst = os.path.join(ROOT, 'seeded', sid)
             os.makedirs(dst, exist_ok=True)
-            shutil.copy(os.path.join(d, 'patch.diff'), dst)
-            shutil.copy(os.path.join(d, 'demo.rs'), dst)
+            if os.path.abspath(d) != os.path.abspath(dst):
+                shutil.copy(os.path.join(d, 'patch.diff'), dst)
+                shutil.copy(os.path.join(d, 'demo.rs'), dst)
             json.dump(meta, open(os.path.join(dst, 'meta.json'), 'w'), indent=1)
         results.append((sid, 'confirmed=%s caught=%s | %s | %s' % (confirmed, caught, (vio[0][:100] if vio else 'no VIOLATION line'),
                                                                 lines[-1][-110:] if lines else '')))
